@@ -133,16 +133,19 @@ theorem resetsDict_case (c : Case) (hwf : wf c = true) :
     simp [this]
   · simp
 
-/-- K8's shape, from the model's side: the reset branch is taken over an own `__setattr__` -/
-theorem k8_of_reset (c : Case) (hE : expectErr c = false) (ho : owns c "__setattr__" = true)
-    (ht : toldSlot c "__setattr__" = none) (hc : (decisions c).hasCustom = false)
-    (hb : c.attrsBase = .hooked) (hv : sSlots c = false ∨ c.plainMid = false) : k8 c = true := by
-  unfold k8
-  have hauto : sAuto c = false := by
-    have : hasCustomSetattr c = false := hc
-    rw [hasCustomSetattr_eq, ho] at this
-    simpa using this
-  rcases hv with hv | hv <;> simp [hE, ho, ht, hauto, hb, hv]
+theorem has_classDict_setattr (c : Case) :
+    (classDict c.body).has "__setattr__" = owns c "__setattr__" := by
+  have := hasOwn_classDict c.body "__setattr__"
+  unfold hasOwn at this
+  rw [this]; simp +decide [owns]
+
+/-- the class has a `__setattr__` of its own after the writes iff attrs wrote one or the body binds one -/
+theorem dictOwnSetattr_case (c : Case) :
+    dictOwnSetattr (classDict c.body) (decisions c) =
+      ((writeFor (decisions c) "__setattr__").isSome || owns c "__setattr__") := by
+  unfold dictOwnSetattr
+  rw [has_written, has_foldl_erase, has_classDict_setattr]
+  simp +decide [fieldNames]
 
 theorem not_attrsMade_absent : (!attrsMade .absent && Slot.absent != .other) = true := by decide
 theorem not_attrsMade_pyNone : (!attrsMade .pyNone && Slot.pyNone != .other) = true := by decide
@@ -172,8 +175,7 @@ theorem has_classDict_owned (c : Case) (n : String) (ho : owns c n = true) :
 
 /-- **name by name, the resulting class dict is what the documented table demands** -/
 theorem specName_final_gen (c : Case) (hwf : wf c = true) (hE : expectErr c = false)
-    (n : String) (hk8' : n = "__setattr__" → k8 c = false) :
-    specName c n ((finalDict c).get n) = true := by
+    (n : String) : specName c n ((finalDict c).get n) = true := by
   have hcmp := hcmp_of_wf c hwf
   have hN := noErr_of_expectErr c hE
   unfold specName
@@ -191,7 +193,7 @@ theorem specName_final_gen (c : Case) (hwf : wf c = true) (hE : expectErr c = fa
     cases ht : toldSlot c n with
     | some v =>
       have hnr : ((!wroteOwnSetattr (decisions c) && inheritedOwnSetattr c) && n == "__setattr__" &&
-          !(decisions c).hasCustom) = false := by
+          !dictOwnSetattr (classDict c.body) (decisions c)) = false := by
         by_cases h1 : n = "__setattr__"
         · subst h1
           rw [wrote_of_writeFor_setattr (decisions c) v (by rw [hw, ht])]
@@ -220,13 +222,10 @@ theorem specName_final_gen (c : Case) (hwf : wf c = true) (hE : expectErr c = fa
         · rename_i hr
           exfalso
           simp only [Bool.and_eq_true, beq_iff_eq, Bool.not_eq_true'] at hr
-          obtain ⟨⟨⟨_, hinh⟩, hnm⟩, hcust⟩ := hr
+          obtain ⟨⟨_, hnm⟩, hcust⟩ := hr
           subst hnm
-          have hk8 := hk8' rfl
-          have hb : c.attrsBase = .hooked := by
-            unfold inheritedOwnSetattr at hinh; simpa using hinh
-          have := k8_of_reset c hE ho ht hcust hb (Or.inl (by rw [← slots_eq]; exact hs))
-          rw [hk8] at this; exact Bool.noConfusion this
+          rw [dictOwnSetattr_case, ho] at hcust
+          simp at hcust
         · rfl
   · -- slotted build
     simp only [if_true]
@@ -242,7 +241,7 @@ theorem specName_final_gen (c : Case) (hwf : wf c = true) (hE : expectErr c = fa
           rw [hw, ht]; simp
         · have : (n == "__hash__") = false := by simpa using h1
           simp [this]
-      have h2 : (resetsSlots (decisions c) (directOwnSetattr c) && n == "__setattr__") = false := by
+      have h2 : (resetsSlots (classDict c.body) (decisions c) (directOwnSetattr c) && n == "__setattr__") = false := by
         by_cases h1 : n = "__setattr__"
         · subst h1
           unfold resetsSlots
@@ -283,19 +282,13 @@ theorem specName_final_gen (c : Case) (hwf : wf c = true) (hE : expectErr c = fa
           simp only [Bool.and_eq_true, beq_iff_eq] at hr
           obtain ⟨hrs, hnm⟩ := hr
           subst hnm
-          have hk8 := hk8' rfl
-          unfold resetsSlots directOwnSetattr at hrs
-          simp only [Bool.and_eq_true, Bool.not_eq_true', beq_iff_eq] at hrs
-          obtain ⟨⟨_, hcust⟩, hb, hpm⟩ := hrs
-          have := k8_of_reset c hE ho ht hcust hb (Or.inr hpm)
-          rw [hk8] at this; exact Bool.noConfusion this
+          unfold resetsSlots at hrs
+          rw [has_classDict_setattr, ho] at hrs
+          simp at hrs
         · rfl
 
-theorem specName_final (c : Case) (hwf : wf c = true) (hk : known c = []) (hE : expectErr c = false)
-    (n : String) : specName c n ((finalDict c).get n) = true := by
-  have hk8 : k8 c = false := by
-    unfold known at hk
-    cases h : k8 c <;> simp_all
-  exact specName_final_gen c hwf hE n (fun _ => hk8)
+theorem specName_final (c : Case) (hwf : wf c = true) (hE : expectErr c = false)
+    (n : String) : specName c n ((finalDict c).get n) = true :=
+  specName_final_gen c hwf hE n
 
 end Attrs.C14
